@@ -141,7 +141,7 @@ D = 4  # divisions per measure (4/4, divs 1)
 
 
 def build_repeat_part(n, repeats=(), endings=(), dacapo=None, fine=None, tie=None, slur=None, divs_change=None, ts_change=None,
-                      segno=None, dalsegno=None, tocoda=None, coda=None, grace_chain=None):
+                      segno=None, dalsegno=None, tocoda=None, coda=None, grace_chain=None, slur_built="complete", unpitched_tie=None):
     """n measures, each with one whole note of pitch 60+i (id n<i>); marks at measure boundaries"""
     sc = _sc()
     part = sc.Part("P", quarter_duration=1)
@@ -177,7 +177,22 @@ def build_repeat_part(n, repeats=(), endings=(), dacapo=None, fine=None, tie=Non
         a.tie_next, b.tie_prev = b, a
     if slur is not None:
         a, b = notes[slur[0]], notes[slur[1]]
-        part.add(sc.Slur(a, b), a.start.t, b.end.t)
+        if slur_built == "complete":
+            sl = sc.Slur(a, b)
+        elif slur_built == "end_later":          # the way the MusicXML reader builds every slur: the start, then the end when it is met
+            sl = sc.Slur(a)
+            sl.end_note = b
+        else:                                     # the stop met first
+            sl = sc.Slur(None, b)
+            sl.start_note = a
+        part.add(sl, a.start.t, b.end.t)
+    if unpitched_tie is not None:
+        # a percussion voice: two unpitched notes tied over the barline between measure i and i+1 (voice 2)
+        u0 = sc.UnpitchedNote(step="F", octave=3, voice=2, staff=1, id="u%d" % unpitched_tie)
+        u1 = sc.UnpitchedNote(step="F", octave=3, voice=2, staff=1, id="u%d" % (unpitched_tie + 1))
+        part.add(u0, D * unpitched_tie, D * (unpitched_tie + 1))
+        part.add(u1, D * (unpitched_tie + 1), D * (unpitched_tie + 2))
+        u0.tie_next, u1.tie_prev = u1, u0
     if grace_chain is not None:
         # a run of three grace notes before the note of that measure
         main = notes[grace_chain]
@@ -275,6 +290,9 @@ def grammar(tier):
         ("tie_over_repeat_boundary", dict(n=3, repeats=[(0, 1)], tie=1)),
         ("tie_inside_repeat", dict(n=3, repeats=[(0, 1)], tie=0)),
         ("slur_inside_repeat", dict(n=3, repeats=[(0, 1)], slur=(0, 1))),
+        ("slur_inside_repeat_end_attached_later", dict(n=3, repeats=[(0, 1)], slur=(0, 1), slur_built="end_later")),
+        ("slur_inside_repeat_start_attached_later", dict(n=3, repeats=[(0, 1)], slur=(0, 1), slur_built="start_later")),
+        ("tied_unpitched_notes_inside_repeat", dict(n=3, repeats=[(0, 1)], unpitched_tie=0)),
         ("ts_change_inside_repeat", dict(n=4, repeats=[(1, 2)], ts_change=2)),
         ("slur_across_boundary", dict(n=4, repeats=[(1, 2)], slur=(0, 2))),
         ("grace_run_inside_repeat", dict(n=3, repeats=[(0, 1)], grace_chain=1)),
